@@ -253,3 +253,70 @@ Proof.
   - exists t. auto.
   - exfalso. eapply (Hnf t why). rewrite Hks. apply in_or_app. right. now left.
 Qed.
+
+(** * Where the proxy's own error statuses come from *)
+
+Section StatusOrigin.
+Variables (pre : trace) (e : event) (post : trace) (s : state) (r : nat) (sb : str).
+Hypothesis Hrun : run step init (pre ++ e :: post) = Some s.
+Let ks := req_path r pre.
+
+Lemma origin_404 : e_k e = KRespond r 404%N sb ->
+  no_service r ks \/ exists t, target_replied r ks t 404%N.
+Proof.
+  intros Hk. pose proof (response_cases _ _ _ _ _ _ _ Hrun Hk) as Hc. cbv zeta in Hc. fold ks in Hc.
+  destruct Hc as [(H & _)|[(_ & [Hd|[Hd|Hd]] & _)|[(_ & Hd)|[(_ & Hd)|[(_ & Hd)|[(_ & Hd)|[(t & H & _)|(t & why & _ & _ & Hd)]]]]]]];
+    try discriminate; eauto.
+  destruct Hd as [(_ & Hd)|[(_ & Hd)|(_ & _ & Hd)]]; discriminate.
+Qed.
+
+Lemma origin_503 : e_k e = KRespond r 503%N sb ->
+  before_gate r ks \/ gate_said r ks AStopped \/ rotation_empty r ks \/ claim_refused r ks \/
+  exists t, target_replied r ks t 503%N.
+Proof.
+  intros Hk. pose proof (response_cases _ _ _ _ _ _ _ Hrun Hk) as Hc. cbv zeta in Hc. fold ks in Hc.
+  destruct Hc as [(_ & Hd)|[(H & _)|[(H & _)|[(_ & Hd)|[(H & _)|[(H & _)|[(t & H & _)|(t & why & _ & _ & Hd)]]]]]]];
+    try discriminate; eauto 10.
+  destruct Hd as [(_ & Hd)|[(_ & Hd)|(_ & _ & Hd)]]; discriminate.
+Qed.
+
+Lemma origin_504 : e_k e = KRespond r 504%N sb ->
+  gate_said r ks ATimedOut \/ (exists t, target_failed r ks t 1%N) \/ exists t, target_replied r ks t 504%N.
+Proof.
+  intros Hk. pose proof (response_cases _ _ _ _ _ _ _ Hrun Hk) as Hc. cbv zeta in Hc. fold ks in Hc.
+  destruct Hc as [(_ & Hd)|[(_ & [Hd|[Hd|Hd]] & _)|[(_ & Hd)|[(H & _)|[(_ & Hd)|[(_ & Hd)|[(t & H & _)|(t & why & H & _ & Hd)]]]]]]];
+    try discriminate; eauto.
+  destruct Hd as [(_ & Hd)|[(-> & _)|(_ & _ & Hd)]]; try discriminate. eauto.
+Qed.
+
+Lemma origin_502 : e_k e = KRespond r 502%N sb ->
+  (exists t, target_failed r ks t 0%N) \/ exists t, target_replied r ks t 502%N.
+Proof.
+  intros Hk. pose proof (response_cases _ _ _ _ _ _ _ Hrun Hk) as Hc. cbv zeta in Hc. fold ks in Hc.
+  destruct Hc as [(_ & Hd)|[(_ & [Hd|[Hd|Hd]] & _)|[(_ & Hd)|[(_ & Hd)|[(_ & Hd)|[(_ & Hd)|[(t & H & _)|(t & why & H & _ & Hd)]]]]]]];
+    try discriminate; eauto.
+  destruct Hd as [(-> & _)|[(_ & Hd)|(_ & _ & Hd)]]; try discriminate. eauto.
+Qed.
+End StatusOrigin.
+
+(** the corollary for a request whose target replied 200 *)
+Lemma answered_200_lem : forall pre e post s r status sb sv lb t,
+  run step init (pre ++ e :: post) = Some s -> e_k e = KRespond r status sb ->
+  In (KPick r sv (Some lb)) (req_path r pre) ->
+  (forall p1 ec p2 s1 l, pre = p1 ++ ec :: p2 -> about r (e_k ec) = true -> is_claim_step (e_k ec) ->
+     run step init p1 = Some s1 -> nget (lbs s1) lb = Some l -> lb_clean p1 s1 lb l /\ l_targets l <> []) ->
+  (forall t why, ~ In (KTargetFailed t r why) (req_path r pre)) ->
+  In (KTargetReplied t r 200%N) (req_path r pre) ->
+  status = 200%N /\ exists s1, run step init pre = Some s1 /\ nget (tgt_names s1) t = Some sb.
+Proof.
+  intros pre e post s r status sb sv lb t Hrun Hk Hpick Hclean Hnf Hrep.
+  destruct (no_proxy_error_lem _ _ _ _ _ _ _ _ _ Hrun Hk Hpick Hclean Hnf) as (t' & (sv' & lb' & Hks) & Hsb).
+  destruct (response_after_target _ _ _ _ _ _ _ t Hrun Hk) as [_ Hst]. pose proof (Hst _ Hrep) as ->.
+  split; auto.
+  assert (t' = t).
+  { rewrite Hks in Hrep. cbn in Hrep.
+    destruct Hrep as [Hi|[Hi|[Hi|[Hi|[Hi|[Hi|[Hi|[Hi|[Hi|[]]]]]]]]]]; try discriminate. inversion Hi; auto. }
+  subst t'. eapply response_served_by; eauto.
+  - rewrite Hks. cbn. auto 10.
+  - intros ->. now apply Hsb.
+Qed.
